@@ -35,11 +35,29 @@ FAIL_MODES = ["badsig", "err11", "err13", "err14", "err15", "err16", "err17", "e
 AUTH_MODES = ["err12", "err22"]
 
 
+FAMILY = {"v": "v4"}  # address family used for the scenario being run (set by run_scenario)
+
+
 def host(i):
+    """the i-th advertised address, as zeroconf / the pairing record spell it"""
+    if FAMILY["v"] == "v6":
+        # scoped link-local with zero compression and mixed case, as mDNS delivers them
+        return f"fe80::AB:{i:x}%eth0"
     return f"10.0.0.{i}"
 
 
+def peer_name(h):
+    """how the connected socket reports the same address (getpeername): expanded, lower case, no scope id"""
+    if ":" in h:
+        import ipaddress
+        return ipaddress.ip_address(h.partition("%")[0]).exploded
+    return h
+
+
 def hidx(h):
+    if ":" in h:
+        import ipaddress
+        return int(ipaddress.ip_address(h.partition("%")[0])) & 0xFFFF
     return int(h.rsplit(".", 1)[1])
 
 
@@ -86,7 +104,8 @@ class Sim:
         self.stats = {}
 
 
-def _run(hosts, events, seed, subs=None):
+def _run(hosts, events, seed, subs=None, family="v4"):
+    FAMILY["v"] = family
     loop = simnet.VLoop()
     asyncio.set_event_loop(loop)
     sim = Sim()
@@ -105,8 +124,8 @@ def _run(hosts, events, seed, subs=None):
     return sim
 
 
-def run_scenario(hosts, events, seed=0):
-    return _run(hosts, events, seed)
+def run_scenario(hosts, events, seed=0, family="v4"):
+    return _run(hosts, events, seed, family=family)
 
 
 def now_units(loop):
@@ -123,13 +142,19 @@ async def _scenario(loop, sim, hosts, events, seed):
 
     async def start_connection(addr_infos, **kw):
         raw_attempts.append((now_units(loop), [hidx(a[3]) for a in addr_infos]))
-        return await orig_start(addr_infos, **kw)
+        sock = await orig_start(addr_infos, **kw)
+        sock.host = peer_name(sock.host)
+        return sock
     net.start_connection = start_connection
-    opened = []  # (units, host idx) of every TCP connection that was established
+    opened = []  # (units, host idx, advertised list) of every TCP connection that was established
+    conn_ref = []
     orig_create = net.create_connection
 
     async def create_connection(factory, sock=None, **kw):
-        opened.append((now_units(loop), hidx(sock.host)))
+        # remember under which advertised address list the connection was made: a zeroconf update that changes the
+        # list legitimately resets the exclusions ("host change clears exclusions"), so only repeats under the SAME
+        # list count as "the same address again"
+        opened.append((now_units(loop), hidx(sock.host), tuple(sorted(conn_ref[0].hosts)) if conn_ref else ()))
         return await orig_create(factory, sock=sock, **kw)
     net.create_connection = create_connection
     # stale-loss oracle: the loss of a transport that is not the current one must leave the current one alone
@@ -142,6 +167,7 @@ async def _scenario(loop, sim, hosts, events, seed):
     with net.patched():
         p = IpPairing(ctrl, acc.pairing_data([host(h) for h in hosts]))
         conn = p.connection
+        conn_ref.append(conn)
         orig_lost = simnet.FakeTransport._lost
 
         def lost_hook(t, exc, _orig=orig_lost):
@@ -294,10 +320,10 @@ async def _scenario(loop, sim, hosts, events, seed):
                 new_open = opened[n_open:]
                 n_open = len(opened)
                 seen_at = {}
-                for t, h in new_open:
-                    if h in seen_at.get(t, ()):
-                        problems.append(("immediate-retry-same-address", f"after {ev}: address {h} was connected to twice at the same instant t={t / UNIT:.3f}s (no back-off in between)"))
-                    seen_at.setdefault(t, set()).add(h)
+                for t, h, adv in new_open:
+                    if h in seen_at.get((t, adv), ()):
+                        problems.append(("immediate-retry-same-address", f"after {ev}: address {h} was connected to twice at the same instant t={t / UNIT:.3f}s under the same advertised list (no back-off in between)"))
+                    seen_at.setdefault((t, adv), set()).add(h)
                 # C10: no advertised address is excluded forever
                 if k in ("x", "X", "d"):
                     groups = []
